@@ -107,6 +107,10 @@ func goPayloadTable(p *load.Program, typ string) ([]pseg, error) {
 	case len(evs) > 1 && evs[0].Loop == 1 && evs[0].Field == "0x00" && evs[0].LoopX == "i < (32 - len("+recv+".Module))" && evs[1].Field == "[]byte("+recv+".Module)":
 		out = append(out, pseg{Kind: "module", Name: "request module, zero-padded on the left to 32", Off: 0, Width: 32, Value: "<request>"})
 		i = 2
+	case len(evs) > 1 && evs[0].Loop == 1 && evs[0].Field == "0x00" && strings.HasPrefix(evs[1].Field, "[]byte(") && c15padLoop(p, evs[0].LoopInit, evs[0].LoopX, strings.TrimSuffix(strings.TrimPrefix(evs[1].Field, "[]byte("), ")")):
+		// the same padding written as `for i := len(m); i < 32; i++` (or with a named constant)
+		out = append(out, pseg{Kind: "module", Name: "request module, zero-padded on the left to 32", Off: 0, Width: 32, Value: "<request>"})
+		i = 2
 	default:
 		return nil, fmt.Errorf("payload does not start with a 32-byte module: %v", evs)
 	}
@@ -804,4 +808,36 @@ func c15pure(c *Ctx, p *load.Program) {
 		R.Check("C15.pure", R.Key("C15.pure", shortFn(inject), "call:"+cl.Call.StaticCallee().Name()), c.rel(p.Pos(cl.Pos())), "conversion is called with the configured governance emitter and the request's own timestamp / set index", ok2, fmt.Sprintf("%s, %s, %s, %s", facts.Term(a[0]), facts.Term(a[1]), facts.Term(a[3]), facts.Term(a[4])))
 	})
 	R.Floor("C15.pure.conversions", n, 9)
+}
+
+// c15padLoop: the loop header pads module string m on the left to 32 bytes:
+// `i := 0; i < 32-len(m)` or `i := len(m); i < 32`, 32 possibly spelled as a constant of pkg/vaa.
+func c15padLoop(p *load.Program, init, cond, m string) bool {
+	is32 := func(t string) bool {
+		t = strings.TrimSpace(t)
+		if t == "32" {
+			return true
+		}
+		if o := p.ByPath[pkgVAA].Types.Scope().Lookup(t); o != nil {
+			if k, ok := o.(*types.Const); ok {
+				v, _ := constInt64(k.Val())
+				return v == 32
+			}
+		}
+		return false
+	}
+	cond = strings.TrimSpace(cond)
+	if !strings.HasPrefix(cond, "i < ") {
+		return false
+	}
+	bound := strings.TrimPrefix(cond, "i < ")
+	bound = strings.TrimSuffix(strings.TrimPrefix(bound, "("), ")")
+	switch init {
+	case "i := 0":
+		parts := strings.SplitN(bound, " - ", 2)
+		return len(parts) == 2 && is32(parts[0]) && strings.TrimSpace(parts[1]) == "len("+m+")"
+	case "i := len(" + m + ")":
+		return is32(bound)
+	}
+	return false
 }
